@@ -44,7 +44,7 @@ theorem reorderCore_at (axes : List Nat) (S : FS) (hp : axes.Perm (List.range S.
     permIdx_inj axes S.ndim hcov i i' (mem_box_length _ _ hi) (mem_box_length _ _ hi') h
   exact ⟨pushL_inj S.box (nodup_boxIdx _) _ _ i hi hinj, anyL_inj S.box _ _ i hi hinj⟩
 
-theorem permIdx_map_const (axes sh : List Nat) (hval : ∀ a ∈ axes, a < sh.length) :
+theorem permIdx_map_const (axes sh : List Nat) (_hval : ∀ a ∈ axes, a < sh.length) :
     permIdx 0 axes (sh.map fun _ => 0) = (permIdx 0 axes sh).map fun _ => 0 := by
   unfold permIdx
   rw [List.map_map]
